@@ -245,7 +245,8 @@ PROPS = {
                  'C13_unique: uniqueness is proved GIVEN monotonicity of the fixed-bed excess gradient in line speed, which is C04\'s partial clause'],
         level_text='Proof (regenerated model, induction over the step budget): whenever vls_FBSB\'s search returns through its convergence test the '
                    'fixed-bed excess gradient at the returned speed is within e of musf -- 0.1 % for the default e = musf/1000 (checked to be the '
-                   'default, with the default budget 20); the public value is that run\'s value. Convergence on E and uniqueness are partial.',
+                   'default, with the default budget 20); the public value is that run\'s value; where the fixed-bed excess gradient rises at least at a rate m per m/s (premise), the returned '
+                   'speed is within e/m of the one true crossing (C13_exit_near_crossing). Convergence on E and uniqueness are partial.',
         level_note='Loop translated as structural recursion on max_steps returning (value, converged); value compared bit-exactly with the Python for '
                    'max_steps in {0,1,3,10,20,50}.',
     ),
